@@ -1014,3 +1014,45 @@ def run(prog, prefix="mpq_", rule="R-IDX"):
     res.counts["functions_with_preconditions"] = len(summaries)
     res.floor("subscripts of problem arrays by an external index", n_uses, 30)
     return res
+
+
+def run_pubstruct(prog, prefix="mpq_", rule="R-PUBSTRUCT", floor=2):
+    """the public API speaks structural column numbers.  The internal column space (structural columns and logicals interleaved in the
+    order they were created, dimension ncols) never appears at the interface: every public function validates a caller's column number
+    against nstruct and maps it through structmap.  In the public functions of qsopt.c, no comparison of a caller-supplied value (an
+    int parameter or an element of an int-array parameter) with a dimension of the internal column space (ILLlpdata::ncols,
+    ILLmatrix::matcols, lpinfo::ncols) occurs - such a guard admits the numbers nstruct .. ncols-1, which are no columns of the problem
+    for any other call, and shows that the list is used unmapped.  The comparisons with nstruct / nrows are counted as the instances."""
+    res = RuleResult(rule, "no public function compares a caller-supplied index with a dimension of the internal column space")
+    n = 0
+    for f, pidx in api_functions(prog, prefix):
+        if f.live is None or not f.unit.endswith("qsopt_mpq.c"):
+            continue
+        iparams = {p_[0] for p_ in f.params if p_[2].replace("const ", "").strip() in ("int", "int *", "int *const")}
+        if not iparams:
+            continue
+        for bid in f.live:
+            c = f.blocks[bid].get("c")
+            if c is None:
+                continue
+            for nd in walk(c):
+                if not (isinstance(nd, list) and nd and nd[0] == "b" and nd[1] in ("<", "<=", ">", ">=")):
+                    continue
+                for a, b_ in ((nd[2], nd[3]), (nd[3], nd[2])):
+                    cls = dim_class(b_)
+                    if cls is None:
+                        continue
+                    ext = any(isinstance(x, list) and x and x[0] == "v" and x[2] in iparams and isinstance(x[1], str) and x[1].startswith("p") for x in walk(a))
+                    if not ext:
+                        continue
+                    n += 1
+                    res.obligations += 1
+                    res.nontrivial += 1
+                    if cls == COL:
+                        res.violations.append(Violation(rule, "%s|%s compared with the internal column count" % (base(f.name), show(a)[:30]), f.name,
+                                                        short_loc(f.blocks[bid].get("tloc", f.loc)),
+                                                        "%s: the caller's value is validated against %s, the dimension of the internal column space - the numbers "
+                                                        "nstruct .. ncols-1 pass, and the value is used without the structmap" % (show(nd)[:70], show(b_))))
+    res.counts["comparisons_of_external_values_with_a_dimension"] = n
+    res.floor("comparisons of caller-supplied values with a problem dimension in public functions", n, floor)
+    return res
